@@ -18,7 +18,7 @@ LEVEL = "exploration"
 RULE = (
     "All-pairs enumeration: for every ordered pair (a, b) of the enumerated value objects, a == b must equal "
     "(type(a) is type(b) and obs(a) == obs(b)) and equal objects must have equal hashes; per object nb_str -> parse_nb_string "
-    "round-trips and nb_str is injective on obs; every candidate value produced by the parser for the bundled corpus + grammar sentences must equal, and hash like, its hand-built twin and its parse_nb_string(nb_str()) image.  One evaluation = one row (object a against every b of its family). "
+    "round-trips and nb_str is injective on obs; every candidate value produced by the parser for the bundled corpus + grammar sentences must equal, and hash like, its hand-built twin and its parse_nb_string(nb_str()) image; operation sequences of depth 2 on one object ((nothing | hash | == | hash then ==) ; assignment of one public field, also of a field of an interval end, to the value three donor objects carry there) must leave it equal to, and hashing like, a freshly built object of its new value and unequal to one of its old value.  One evaluation = one row (object a against every b of its family). "
     "A row is non-trivial when it contains at least one equal pair at different spans AND at least one unequal pair; "
     "rows are distinct objects by construction."
 )
@@ -147,6 +147,11 @@ def plan(tier, seed):
         # cross-family rows: one representative of each family against the other families (type distinction)
         for name in cross:
             yield ("cross", tier, name, 0)
+        # operation sequences on one object: (hash | == | nothing) ; assign one public field ; compare with a freshly built twin.
+        # A resolution denotes what its fields say NOW: equality and hash may not remember an earlier state.
+        for name in cross:
+            for i in range(min(len(fam[name]), MUT_OBJECTS[tier])):
+                yield ("mutate", tier, name, i)
         for k in range(_n_gold()):
             yield ("gold", tier, "dataset", k)
         # values as the parser itself produces them (all candidates, latent on and off): a value that went through rules,
@@ -158,9 +163,44 @@ def plan(tier, seed):
     space["sweep_families"] = sum(1 for k in fam if k.startswith("sweep"))
     space["sweep_objects"] = sum(len(v) for k, v in fam.items() if k.startswith("sweep"))
     space["pairs"] = sum(len(v) ** 2 for v in fam.values())
+    space["objects_under_assignment_sequences"] = {n: min(len(fam[n]), MUT_OBJECTS[tier]) for n in cross}
     space["dataset_gold_strings"] = _n_gold()
     space["parsed_sentences"] = len(_sentences())
     return {"space": space, "cases": gen(), "chunk": 16}
+
+
+MUT_OBJECTS = {"quick": 400, "thorough": 10 ** 9}
+_MUT_FIELDS = {"Time": FIELDS, "Interval": ["t_from", "t_to"], "Duration": ["value", "unit"]}
+
+
+def _mutations(a0, donors):
+    """(description, mutated object) for every pre-operation x field x donor; the object is a fresh twin of a0 each time"""
+    typ = type(a0).__name__
+    for pre in ("none", "hash", "eq", "hash+eq"):
+        for b in donors:
+            steps = [(f, None) for f in _MUT_FIELDS[typ]]
+            if typ == "Interval":
+                for end in ("t_from", "t_to"):
+                    if getattr(a0, end) is not None and getattr(b, end) is not None:
+                        steps += [(end, f) for f in FIELDS]
+            for f, sub in steps:
+                a = _rebuild(obs(a0))
+                a.mstart, a.mend = a0.mstart, a0.mend
+                if "hash" in pre:
+                    hash(a)
+                if "eq" in pre:
+                    a == _rebuild(obs(a0))
+                if sub is None:
+                    if getattr(a, f) == getattr(b, f) and obs(getattr(a, f)) == obs(getattr(b, f)) if typ == "Interval" else getattr(a, f) == getattr(b, f):
+                        continue
+                    val = getattr(b, f)
+                    setattr(a, f, _rebuild(obs(val)) if typ == "Interval" else val)
+                    yield "{} ; .{} = {!r}".format(pre, f, val), a
+                else:
+                    if getattr(getattr(a, f), sub) == getattr(getattr(b, f), sub):
+                        continue
+                    setattr(getattr(a, f), sub, getattr(getattr(b, f), sub))
+                    yield "{} ; .{}.{} = {!r}".format(pre, f, sub, getattr(getattr(b, f), sub)), a
 
 
 _sent = None
@@ -247,6 +287,28 @@ def run_case(case):
                 if len(v) > 3:
                     break
         return {"o": "parsed:" + ("ok" if not v else "bad"), "nt": n > 0, "v": v[:3], "st": {"parser_values": n}}
+    if kind == "mutate":
+        objs = fam[name]
+        a0 = objs[i]
+        o0 = obs(a0)
+        donors = [objs[(i + 1) % len(objs)], objs[(i * 7 + 3) % len(objs)], objs[len(objs) - 1 - i]]
+        n = changed = 0
+        for what, a in _mutations(a0, donors):
+            n += 1
+            want = obs(a)
+            twin = _rebuild(want)
+            typ = type(a).__name__
+            if not (a == twin) or not (twin == a):
+                v.append(viol({"kind": "eq_after_assignment", "type": typ, "pre": what.split(" ;")[0]}, "{!r} built, then {}: now denotes {} but != a freshly built {!r}".format(a0, what, want, twin)))
+            elif hash(a) != hash(twin):
+                v.append(viol({"kind": "hash_after_assignment", "type": typ, "pre": what.split(" ;")[0]}, "{!r} built, then {}: equals a freshly built {!r} but hashes differently".format(a0, what, twin)))
+            if want != o0:
+                changed += 1
+                if a == _rebuild(o0):
+                    v.append(viol({"kind": "eq_remembers_old_value", "type": typ}, "{!r} built, then {}: still == a fresh object of the OLD value".format(a0, what)))
+            if len(v) > 3:
+                break
+        return {"o": "mutate:" + ("ok" if not v else "bad"), "nt": changed > 0, "v": v[:3], "st": {"assignment_sequences": n}}
     if kind == "cross":
         a = fam[name][0]
         n = 0
